@@ -360,7 +360,13 @@ func (p *parser) parseOpaqueHost(u *Url, input string) (string, error) {
 			}
 		}
 		if c == '%' {
-			invalidPercentEncoding, d := remainingIsInvalidPercentEncoded([]rune(input[i:]))
+			// only the next three code points matter; converting the whole rest of the host on every '%' is quadratic
+			end := i
+			for k := 0; k < 3 && end < len(input); k++ {
+				_, size := utf8.DecodeRuneInString(input[end:])
+				end += size
+			}
+			invalidPercentEncoding, d := remainingIsInvalidPercentEncoded([]rune(input[i:end]))
 			if invalidPercentEncoding {
 				if err := p.handleErrorWithDescription(u, errors.InvalidURLUnit, false, d); err != nil {
 					return "", err
